@@ -25,9 +25,12 @@ class ConcreteCtx:
         self.notes = {}
 
     def int(self, name, bits=None, lo=None, hi=None):
-        return int(self.inputs[name])
+        # an input the solver left unconstrained is absent from the model: any value works, take the smallest
+        return int(self.inputs.get(name, lo or 0))
 
     def bytes(self, name, n):
+        if name not in self.inputs:
+            return bytearray(n)
         return bytearray.fromhex(self.inputs[name])
 
     def zeros(self, name, n):
@@ -47,6 +50,9 @@ class ConcreteCtx:
         return bool(cond)
 
     def oracle(self, v):
+        return v
+
+    def oracle_struct(self, v):
         return v
 
     def select(self, table, idx):
